@@ -112,6 +112,8 @@ FreshCanReconstruct ==
   \/ latest = -1
   \/ TrueChain \subseteq vers
   \/ \E s \in SnapsOnChain : \A e \in TrueChain : DepthT(e[2]) > DepthT(s) => e \in vers
+RetainedSuffixAll ==
+  \A s \in SnapsOnChain : \A e \in TrueChain : DepthT(e[2]) > DepthT(s) => e \in vers
 SnapshotRetained == everSnap => SnapsOnChain # {}
 
 Accepted ==
